@@ -224,8 +224,15 @@ def main():
   dist = collections.Counter()
   nontrivial = set()
   samples_out = []
-  for _ in range(n_models):
-    mb, info = gg.gen_model(rng, max_ops=rng.choice([3, 5, 8]))
+  for mi in range(n_models):
+    if mi % 8 == 5:
+      # directed: a STATEFUL float op (RNN with a variable tensor) in front of quantized ops:
+      # the state must be reset between samples exactly as the reference run does
+      mb, info = gg.gen_model(rng, n_subgraphs=1, max_ops=rng.choice([3, 4, 5]),
+                              op_weights=['RNN', 'RNN', 'FULLY_CONNECTED', 'TANH', 'ADD', 'MUL'])
+      dist['directed:stateful-op'] += 1
+    else:
+      mb, info = gg.gen_model(rng, max_ops=rng.choice([3, 5, 8]))
     m = og.read(mb)
     qt = quantizer.Quantizer(bytearray(mb))
     if rng.random() < 0.35:
